@@ -14,7 +14,8 @@ HISTORY_RULE = ("rapid draws whole histories (1-25 steps quick, 1-60 thorough) o
                 "memos, packet data in JSON spellings on which decoders disagree, Hyperlane routes naming another denomination's token, payloads "
                 "naming the action the application registers no controller for), admin "
                 "messages and environment steps (direct deposits, re-escrow, FTF pause/blacklist, CCTP burn limit, CCTP burn/message pauses, Hyperlane "
-                "router unenrol/enrol), recipients incl. 32-byte and 2-byte addresses, denominations incl. one of the maximum length 128 and one using "
+                "router unenrol/enrol, the next block (height/time), the bank's per-denomination send switch, an in-place upgrade running the module's "
+                "registered migrations), packets carrying a non-native coin or a valid protocol id without controller, recipients incl. 32-byte and 2-byte addresses, denominations incl. one of the maximum length 128 and one using "
                 "every allowed character class; Hyperlane routes may name the environment's SYNTHETIC token (its own denomination is never transferred); "
                 "executed on a "
                 "branch of the real SimApp; the oracle runs after every packet step. ")
@@ -23,7 +24,7 @@ PROPERTIES = {
     "C01": {
         "level": "exploration",
         "rule": HISTORY_RULE + "Non-trivial = an ICS-20-valid packet whose receiver decodes to the orbiter account; distinct by "
-                "(route, denom, amount class, recipient, fee count, dust present, outcome, receiver spelling, raw memo).",
+                "(route, denom, amount class, recipient, fee count, dust present, outcome, receiver spelling, raw memo). TestC01LabFaults (LAB world): one packet shape and ONE failing dependency call (returns an error / panics before / panics after its work) at a drawn position; whatever the receive path makes of it, a success acknowledgement never leaves the delivered coin, or more than before, on the orbiter account and anything else leaves the ledger untouched. Non-trivial there = the fault fired.",
         "assumptions": COMMON_ASSUMPTIONS,
         "tests": [{"test": "TestC01History", "quick": 400, "thorough": 192000},
                   {"test": "TestC01LabFaults", "quick": 500, "thorough": 96000}],
@@ -33,7 +34,7 @@ PROPERTIES = {
         "rule": HISTORY_RULE + "Non-trivial = a successful orbiter transfer, whose whole-ledger delta (all accounts and total supply) "
                 "is compared with the reference model's expected delta; model-free clause for EVERY successful packet to the orbiter account, "
                 "whatever its memo: per-denom deltas sum to the supply delta and the orbiter account has not gained anything. "
-                "Distinct by (route, denom, amount class, recipient, fee count, dust present).",
+                "Distinct by (route, denom, amount class, recipient, fee count, dust present). TestC02LabFaults (LAB world): one packet shape and ONE failing dependency call (returns an error / panics before / panics after its work) at a drawn position; whatever the receive path makes of it, a success acknowledgement comes with exactly the model ledger delta of the complete transfer and anything else leaves the ledger untouched. Non-trivial there = the fault fired.",
         "assumptions": COMMON_ASSUMPTIONS,
         "tests": [{"test": "TestC02History", "quick": 400, "thorough": 192000},
                   {"test": "TestC02LabFaults", "quick": 500, "thorough": 96000}],
@@ -305,6 +306,9 @@ PROPERTIES["C16"] = {
             "TestC16Adapter (quick and thorough): the same packets, amounts also from a number-spelling grammar, through IBCAdapter.ParsePacket "
             "alone; for an accepted packet the coin returned equals the coin the ICS-20 application credits (its own codec, SetString(amount,0), "
             "its denomination functions). "
+            "TestC16Routes: one-hop returns forwarded through Hyperlane/CCTP while coins of OTHER denominations (another collateral token's, the "
+            "synthetic token's own) sit on the orbiter account and the route names the own, another or the synthetic token: an accepted packet moves, "
+            "hands to the bridge and records only the credited coin (model ledger delta), a route through another denomination's token is refused. "
             "Thorough tier adds the native coverage-guided campaign FuzzPacket (180 s) with the coin oracle inside the target: an accepted "
             "packet's denom carries the packet's own port/channel prefix exactly once more than a Noble-native denom, the coin acted on is "
             "(denom minus that prefix, amount as ICS-20 reads it). "
@@ -323,7 +327,8 @@ PROPERTIES["C07"] = {
     "level": "exploration",
     "rule": "rapid draws packets NOT addressed to the orbiter account (receivers: users, module accounts, blocked accounts, garbage, other "
             "prefix over the orbiter bytes, truncated/padded orbiter address; data: valid ICS-20 with a COMPLETE valid orbiter payload as memo, "
-            "other memos, sender-source tokens, bad amounts/denoms, arbitrary bytes, non-object JSON; valid channel/port ids) after a prefix "
+            "other memos, sender-source tokens, bad amounts/denoms, arbitrary bytes, non-object JSON, LARGE packets - memos to 70000 bytes, JSON escaped "
+            "inside JSON, long denominations; valid channel/port ids) after a prefix "
             "history that puts orbiter into some pause/parameter/statistics state. Differential on two sibling branches: the application's "
             "stack vs a reference stack built by the harness WITHOUT the orbiter middleware (blockibc over the ICS-20 module): ack bytes, the "
             "full event list and the digest of EVERY store must be equal, and the orbiter store and the orbiter/dust-collector balances "
